@@ -2,6 +2,7 @@ package main
 
 import (
 	"fmt"
+	"go/types"
 	"os"
 	"sort"
 	"strings"
@@ -21,8 +22,6 @@ var ufDecls = map[string]string{
 // script assembles the common prefix of all queries of an encoded function.
 func (e *Enc) script() string {
 	var b strings.Builder
-	b.WriteString("(set-option :produce-models true)\n(set-logic ALL)\n")
-	b.WriteString(e.reg.preamble())
 	for _, k := range sortedKeys(ufDecls) {
 		b.WriteString(ufDecls[k] + "\n")
 	}
@@ -40,16 +39,27 @@ func (e *Enc) script() string {
 		vars := map[string]CVal{}
 		for _, pa := range uf.Params {
 			n := "u_" + pa.Name
-			decl = append(decl, "("+n+" Int)")
-			sorts = append(sorts, "Int")
+			srt := ufSort(pa.Type)
+			decl = append(decl, "("+n+" "+srt+")")
+			sorts = append(sorts, srt)
 			args = append(args, n)
-			vars[pa.Name] = CVal{T: Term{n, sInt}}
+			cv := CVal{T: Term{n, srt}}
+			if srt == sStr {
+				cv.GT = types.Typ[types.String]
+			}
+			vars[pa.Name] = cv
 		}
-		e.inQuant++
-		body := (&Ctx{e: e, st: e.init, old: e.init, vars: vars}).evalInt(uf.Body)
-		e.inQuant--
-		fmt.Fprintf(&b, "(declare-fun uf_%s (%s) Int)\n", k, strings.Join(sorts, " "))
-		fmt.Fprintf(&b, "(assert (forall (%s) (! (= (uf_%s %s) %s) :pattern ((uf_%s %s)))))\n", strings.Join(decl, " "), k, strings.Join(args, " "), body.S, k, strings.Join(args, " "))
+		res := ufSort(uf.Result)
+		if uf.Body == nil {
+			res = ufSort(uf.Result)
+		}
+		fmt.Fprintf(&b, "(declare-fun uf_%s (%s) %s)\n", k, strings.Join(sorts, " "), res)
+		if uf.Body != nil {
+			e.inQuant++
+			body := (&Ctx{e: e, st: e.init, old: e.init, vars: vars}).eval(uf.Body).T
+			e.inQuant--
+			fmt.Fprintf(&b, "(assert (forall (%s) (! (= (uf_%s %s) %s) :pattern ((uf_%s %s)))))\n", strings.Join(decl, " "), k, strings.Join(args, " "), body.S, k, strings.Join(args, " "))
+		}
 	}
 	for _, k := range sortedKeys(e.heapInits) {
 		t := e.heapInits[k]
@@ -68,11 +78,19 @@ func (e *Enc) script() string {
 	if len(fns) > 0 {
 		fmt.Fprintf(&b, "(assert (distinct 0 %s))\n", strings.Join(fns, " "))
 	}
+	// ToLower is evaluated by gvc itself on every string literal of the script
+	if e.usedUF["lower"] {
+		for i := 0; i < len(e.reg.strList); i++ {
+			lit := e.reg.strList[i]
+			fmt.Fprintf(&b, "(assert (= (uf_lower %s) %s))\n", e.reg.strLit(lit).S, e.reg.strLit(strings.ToLower(lit)).S)
+		}
+	}
 	for _, l := range e.lines {
 		b.WriteString(l)
 		b.WriteString("\n")
 	}
-	return b.String()
+	// the preamble is produced last: encoding may have registered further literals and datatypes
+	return "(set-option :produce-models true)\n(set-logic ALL)\n" + e.reg.preamble() + b.String()
 }
 
 type splitCase struct {
